@@ -106,11 +106,19 @@ def _merge(n: int, edges: list, pubk: list, publ: list, name: str) -> bool:
             return True
 
 
-def merge4(e0: bool, e1: bool, e2: bool, e3: bool, e4: bool, e5: bool, k0: bool, k1: bool, k2: bool, l0: bool, l1: bool) -> bool:
+def merge4(e1: bool, e2: bool, e3: bool, e4: bool, e5: bool, k0: bool, k1: bool, k2: bool, l0: bool, l1: bool) -> bool:
     """
     post: _
     """
-    return _merge(4, [e0, e1, e2, e3, e4, e5], [k0, k1, k2, False], [l0, l1, True, False], "merge4")
+    # every DAG on 4 stages with the edge s1->s0 present (merge4_noedge: absent); split in two for the time budget
+    return _merge(4, [True, e1, e2, e3, e4, e5], [k0, k1, k2, False], [l0, l1, True, False], "merge4")
+
+
+def merge4_noedge(e1: bool, e2: bool, e3: bool, e4: bool, e5: bool, k0: bool, k1: bool, k2: bool, l0: bool, l1: bool) -> bool:
+    """
+    post: _
+    """
+    return _merge(4, [False, e1, e2, e3, e4, e5], [k0, k1, k2, False], [l0, l1, True, False], "merge4_noedge")
 
 
 def merge5_chainish(e1: bool, e2: bool, e4: bool, e5: bool, e7: bool, e8: bool, e9: bool, k0: bool, k1: bool, k2: bool, k3: bool) -> bool:
@@ -298,6 +306,7 @@ def reducers_perm(a: int, b: int, c: int, p: int, present: int) -> bool:
 
 PLAN = [
     ("merge4", "quick", 280),
+    ("merge4_noedge", "quick", 280),
     ("plan_merge", "quick", 200),
     ("replan_fresh", "quick", 200),
     ("reducers_perm", "quick", 280),
